@@ -128,10 +128,14 @@ def check(chk):
             if isinstance(st.value, ast.Constant) and st.value.value == 1:
                 for facts, _c in fl.at(node[0]):
                     a = facts.knows('%s.in_flight < %s.max_request_id' % (rt, rt))
+                    # strict: ids 0..max_request_id are max+1 ids and the test keeps one spare.  The spare is needed because a
+                    # response callback returns the connection (in_flight -= 1) before process_msg puts the stream id back into
+                    # request_ids; a borrow in that window with `<=` finds no free id and get_request_id grows past the maximum
                     b = facts.knows('%s.max_request_id < %s.in_flight' % (rt, rt))      # in_flight <= max  <=>  not (max < in_flight)
-                    if not (a is True or b is False):
+                    if a is not True:
                         ok = False
-                        why = 'path facts %r' % (facts,)
+                        why = ('the test admits in_flight == max_request_id: no spare stream id is left for the window in which a response '
+                               'callback has returned the connection but process_msg has not yet released the id' if b is False else 'path facts %r' % (facts,))
                 # the test must be in the same lock region as the increment
                 if ok:
                     region = [w for l, w in held(st) if l == tuple(r) + ('lock',)]
